@@ -123,7 +123,10 @@ def _case(rng, kind=None):
     c = {"kind": kind, "sizes": sizes, "seed": int(rng.integers(0, 2**31)),
          "fmt": str(rng.choice(["csr", "csc"])),
          "style": str(rng.choice(["full", "sparse"])),
-         "scale": float(10.0 ** int(rng.integers(-2, 3))),
+         # overall scale: moderate, or (15 %) extreme - inversion is scale invariant, any
+         # absolute threshold in the block search / inverter is not
+         "scale": float(10.0 ** int(rng.integers(-2, 3))) if rng.random() < 0.85
+         else float(10.0 ** int(rng.choice([-18, -16, -12, -9, 9, 12, 16]))),
          "explicit_zeros": bool(rng.random() < 0.4),
          "unsorted": bool(rng.random() < 0.3),
          "zero_sizes": bool(rng.random() < 0.2),
@@ -159,6 +162,10 @@ def floor(tier):
                     explicit_zeros=True, seed=101))
     out.append(dict(base, kind="direct", sizes=[2, 3, 2], zero_sizes=True, seed=102))
     out.append(dict(base, kind="direct", sizes=[4, 4, 4, 4, 4, 4], fmt="csc", seed=103))
+    for k, sc in enumerate([1e-16, 1e-12, 1e12, 1e-18]):
+        out.append(dict(base, kind="permuted", sizes=[2, 3, 1], scale=sc, seed=110 + k,
+                        fmt=("csr", "csc")[k % 2]))
+        out.append(dict(base, kind="direct", sizes=[3, 2], scale=sc, seed=120 + k))
     out.append(dict(base, kind="permuted", sizes=[2, 2], offblock_zeros=1, seed=104))
     out.append(dict(base, kind="permuted", sizes=[3, 1, 2], offblock_zeros=2, seed=105,
                     fmt="csc"))
